@@ -129,7 +129,15 @@ def gen_custom(rng, tier, index):
     scn['base'] = {'polarity': rng.choice((0, 0, 1)), 'first-edge': rng.choice((0, 0, 1000, prng.log_uniform(rng, 1, 300000))), 'finish-tape': rng.choice((0, 0, 1))}
     from . import p13
     scn['variants'] = p13.gen_variants(rng, total + 250, tier, names=(name,))
+    # DEC A delay loops run before the first block while interrupts are still enabled (the stub is entered from
+    # BASIC; the loader's DI comes later): drawn from a PRNG of its own so that the other choices keep their values
+    r2 = random.Random(scn['order_seed'] ^ 0xDECA)
+    if r2.random() < 0.5:
+        scn['deca'] = _gen_deca(r2)
     return scn
+
+def _gen_deca(r2):
+    return {'n': r2.choice((0, 0, 0, 1, 2, 255, r2.randrange(256))), 'k': r2.choice((2, 8, 20, 40))}
 
 PROBE_PULSE = 65535
 
@@ -195,6 +203,7 @@ def gen_late(rng, tier, index):
     scn['blocks'] = [b1, b2]
     scn['r0'] = None
     scn['late'] = {'delay': rng.choice((3000, 6000, 9000, rng.randrange(2800, 12000))), 'ints': True}
+    scn['deca'] = _gen_deca(random.Random(scn['order_seed'] ^ 0x1DECA))     # IM 2 frame counter running across the DEC A loops
     scn['size'] = b1['len'] + b2['len'] + 500
     scn['variants'] = [v for v in scn['variants'] if v['pause'] == 1]
     return scn
@@ -332,12 +341,14 @@ def build(scn, wd):
     """-> (list of tape paths via extra args, start, machine, data ranges, skipped addresses)"""
     name = scn['loader']
     base = scn['lbase']
-    code, entry = loader_bytes(base + 0x40, name, scn['dec_a_jp'])
+    deca = scn.get('deca')
+    STUB = 0x48 if deca else 0x40           # scenarios without the delay routine keep their layout
+    code, entry = loader_bytes(base + STUB, name, scn['dec_a_jp'])
     # driver stub at `base`: for each block LD IX,dest; LD DE,len; LD A,flag; SCF; CALL LD-BYTES; JR NC,fail  ... JP done
     stub = bytearray()
     if scn.get('r0') is not None:
         stub += bytes((0x3E, scn['r0'], 0xED, 0x4F))          # LD A,r0; LD R,A  (bit 7 of R is program state too)
-    ldbytes = base + 0x40 + entry
+    ldbytes = base + STUB + entry
     late = scn.get('late')
     isr = b''
     if late:
@@ -346,17 +357,22 @@ def build(scn, wd):
         assert code[entry + 3] == 0xF3
         code[entry + 3] = 0x00
         code = bytes(code)
-        isr_at = base + 0x40 + len(code)
+        isr_at = base + STUB + len(code)
         cnt = isr_at + 13
         isr = bytes((0xF5, 0xE5, 0x2A)) + _word(cnt) + bytes((0x23, 0x22)) + _word(cnt) + bytes((0xE1, 0xF1, 0xFB, 0xC9)) + bytes(3)    # 14 + 2 counter bytes (+1)
         # DI; LD A,0xFE; LD I,A; IM 2; LD HL,isr; LD (0xFEFF),HL; EI
         stub += bytes((0xF3, 0x3E, 0xFE, 0xED, 0x47, 0xED, 0x5E, 0x21)) + _word(isr_at) + bytes((0x22, 0xFF, 0xFE, 0xFB))
     code2 = b''
     if scn.get('repatch'):
-        code2, entry2 = loader_bytes(base + 0x40, scn['repatch'], scn['dec_a_jp'])
+        code2, entry2 = loader_bytes(base + STUB, scn['repatch'], scn['dec_a_jp'])
         if len(code2) != len(code) or entry2 != entry:
             raise tapeload.ToolError('repatch loaders differ in size')
-    dest = (base + 0x40 + len(code) + len(isr) + len(code2) + 0x20) & 0xFFFF
+    if deca:
+        # delay subroutine behind the loader (both DEC A loop forms, entered with A = n; n = 0 means 256 iterations):
+        #   LD B,k; L: LD A,n; DEC A; JR NZ,$-1; LD A,n; DEC A; JP NZ,$-1; DJNZ L; RET
+        deca_at = base + STUB + len(code) + len(isr)
+        isr = isr + bytes((0x06, deca['k'], 0x3E, deca['n'], 0x3D, 0x20, 0xFD, 0x3E, deca['n'], 0x3D, 0xC2)) + _word(deca_at + 9) + bytes((0x10, 0xF3, 0xC9))
+    dest = (base + STUB + len(code) + len(isr) + len(code2) + 0x20) & 0xFFFF
     ranges = []
     blocks = scn['blocks']
     jr_at = []
@@ -364,7 +380,7 @@ def build(scn, wd):
     if press:
         # key-wait subroutine placed after the loader: LD A,0xBF; IN A,(0xFE); RRA; JR C,$-7; RET   (ENTER = bit 0 of row 0xBF)
         isr = isr + bytes((0x3E, 0xBF, 0xDB, 0xFE, 0x1F, 0x38, 0xF9, 0xC9))
-        wait_at = base + 0x40 + len(code) + len(isr) - 8
+        wait_at = base + STUB + len(code) + len(isr) - 8
         dest = (dest + 8) & 0xFFFF
     for bi, b in enumerate(blocks):
         if bi == 1 and press:
@@ -375,7 +391,9 @@ def build(scn, wd):
             stub += bytes((0x01,)) + _word(late['delay']) + bytes((0x0B, 0x78, 0xB1, 0x20, 0xFB))
         if bi == 1 and code2:
             # LD HL,copy; LD DE,loader; LD BC,len; LDIR  - the second loader replaces the first in place
-            stub += bytes((0x21,)) + _word(base + 0x40 + len(code)) + bytes((0x11,)) + _word(base + 0x40) + bytes((0x01,)) + _word(len(code2)) + bytes((0xED, 0xB0))
+            stub += bytes((0x21,)) + _word(base + STUB + len(code) + len(isr)) + bytes((0x11,)) + _word(base + STUB) + bytes((0x01,)) + _word(len(code2)) + bytes((0xED, 0xB0))
+        if bi == 0 and deca:
+            stub += bytes((0xCD,)) + _word(deca_at)
         d = dest
         b['dest'] = d
         stub += bytes((0xDD, 0x21)) + _word(d) + bytes((0x11,)) + _word(b['len']) + bytes((0x3E, b['flag'], 0x37, 0xCD)) + _word(ldbytes)
@@ -394,9 +412,9 @@ def build(scn, wd):
     for at in jr_at:
         disp = (fail - base) - (at + 2)
         stub[at + 1] = disp & 0xFF
-    if len(stub) > 0x40:
+    if len(stub) > STUB:
         raise tapeload.ToolError('driver stub does not fit (%d bytes)' % len(stub))
-    image = bytes(stub) + bytes(0x40 - len(stub)) + code + isr + code2
+    image = bytes(stub) + bytes(STUB - len(stub)) + code + isr + code2
     if dest >= 0x10000 or base + len(image) >= 0x10000:
         raise tapeload.ToolError('generated layout does not fit')
     binf = os.path.join(wd, 'loader.bin')
@@ -432,6 +450,10 @@ def shrink_candidates(scn):
             c = cp(); c['blocks'][i]['len'] = max(1, b['len'] // 2); yield c
     if scn.get('dec_a_jp'):
         c = cp(); c['dec_a_jp'] = False; yield c
+    if scn.get('deca'):
+        c = cp(); del c['deca']; yield c
+        if scn['deca']['k'] > 1:
+            c = cp(); c['deca']['k'] //= 2; yield c
 
 # ---------------------------------------------------------------------------
 # (The pulse tape is always TZX: PZX blocks carry an initial pulse level, and a level mismatch is played as a
